@@ -149,6 +149,15 @@ func allChecks() []CheckSpec {
 						c.MaxPaths = 6000000
 						c.MaxWallS = 2400
 					}},
+				{Fn: "verifC08CloseInBindingHandler", Lemma: "Close called from inside the application's binding-request handler (a callback the agent runs on its task loop, on an authenticated inbound request) returns and leaves the agent closed with all finality clauses",
+					Bounds: "one inbound request, handler calls Close once; context bound 1 (the native replay skips the call: it would hang the process)", MustReach: []string{"handler-invoked"},
+					Cfg: func(c *HarnessCfg, tier int) {
+						c.GoPolicy = "explore"
+						c.ContextBound = 1
+						c.FreeChoiceBound = 3
+						c.MaxPaths = 2000000
+						c.MaxWallS = 900
+					}},
 			},
 			Assumptions: append([]string{
 				"threads switch only at synchronisation operations (sound for data-race-free code; data races themselves are outside); termination = no explored schedule reaches a state in which a thread can never run again; 'bounded time' is not measured",
